@@ -175,8 +175,60 @@ func (sc *Scope) ident(name string) Val {
 			return v
 		}
 	}
+	if gm, ok := sc.x.w.GhostMaps[name]; ok {
+		return Val{T: sc.x.get(sc.st, sc.ghostComp(gm)), K: "ghost:" + name}
+	}
 	sc.fail("unknown identifier %q", name)
 	return Val{}
+}
+
+// state component holding a ghost map
+func (sc *Scope) ghostComp(gm *GhostMap) string {
+	ks, vs := sc.sortByName(gm.Key), sc.sortByName(gm.Val)
+	return fmt.Sprintf("g:%s|(Array %s %s)", gm.Name, ks, vs)
+}
+
+func (sc *Scope) sortByName(n string) string {
+	t, raw := sc.typeByName(n)
+	if t != nil {
+		return sc.x.c.sortOf(t)
+	}
+	return raw
+}
+
+// value of spec type named n from a raw term
+func (sc *Scope) valOfTypeName(n, term string) Val {
+	t, raw := sc.typeByName(n)
+	if t != nil {
+		if isBool(t) {
+			return boolVal(term)
+		}
+		return Val{T: term, Ty: t}
+	}
+	switch raw {
+	case "Bool":
+		return boolVal(term)
+	case "Int":
+		return Val{T: term, K: "math"}
+	}
+	return Val{T: term, K: "raw:" + raw}
+}
+
+func (sc *Scope) coerceTo(v Val, typeName string) Val {
+	t, raw := sc.typeByName(typeName)
+	if v.K == "const" {
+		if t != nil {
+			return sc.convertConst(v, t)
+		}
+		return sc.mathOf(v)
+	}
+	if v.K == "nil" && t != nil {
+		return Val{T: sc.x.c.zero(t), Ty: t}
+	}
+	if raw == "Int" && v.K != "math" {
+		return sc.mathOf(v)
+	}
+	return v
 }
 
 // captured-by-reference variables: the value is what the pointer points to
@@ -745,6 +797,11 @@ func (sc *Scope) idxTerm(v Val) string {
 func (sc *Scope) index(e EIndex) Val {
 	x := sc.x
 	a := sc.eval(e.X)
+	if strings.HasPrefix(a.K, "ghost:") {
+		gm := x.w.GhostMaps[a.K[len("ghost:"):]]
+		k := sc.coerceTo(sc.eval(e.I), gm.Key)
+		return sc.valOfTypeName(gm.Val, sx("select", a.T, k.T))
+	}
 	if a.Ty == nil {
 		sc.fail("index of untyped value %s", e)
 	}
@@ -997,6 +1054,8 @@ func (sc *Scope) quant(e EQuant) Val {
 	for _, qv := range e.Vars {
 		ty, raw := sc.typeByName(qv.Type)
 		n := c.fresh(qv.Name)
+		c.boundVars[n] = true
+		defer delete(c.boundVars, n)
 		if ty != nil {
 			binders = append(binders, fmt.Sprintf("(%s %s)", n, c.sortOf(ty)))
 			s = s.bind(qv.Name, Val{T: n, Ty: ty})
